@@ -1,1 +1,159 @@
-(* Proto/SchemaProofs.v -- stub, to be filled *)
+(* Proto/SchemaProofs.v -- proofs about schema_of / pb_decode (C18). *)
+From A1 Require Import Proto.Wire Proto.Rw Proto.Schema Proto.Proofs.
+Require Import ZifyBool ZifyNat ZifyN.
+Local Open Scope N_scope.
+
+(** * numbering: the j-th entry (from 0) of a message or of a oneof carries number j+1 *)
+Lemma number_from_nth {A} (l : list A) : forall i j x,
+  nth_error (number_from i l) j = Some x -> fst x = i + N.of_nat j /\ nth_error l j = Some (snd x).
+Proof.
+  induction l as [|a l IH]; intros i j x H.
+  - destruct j; discriminate.
+  - destruct j as [|j]; cbn [number_from nth_error] in *.
+    + injection H as <-. cbn. split; [lia|reflexivity].
+    + apply IH in H. destruct H as [H1 H2]. split; [lia|exact H2].
+Qed.
+
+Lemma number_from_length {A} (l : list A) i : length (number_from i l) = length l.
+Proof. revert i. induction l as [|a l IH]; intros i; cbn; [reflexivity|rewrite IH; reflexivity]. Qed.
+
+Theorem numbers_match_seq fs m :
+  schema_of (TSeq fs) = Some m ->
+  length m = length fs /\
+  forall j num ty, nth_error m j = Some (num, ty) ->
+    num = N.of_nat j + 1 /\ exists o t, nth_error fs j = Some (o, t) /\ ty = field_type t.
+Proof.
+  unfold schema_of. cbn [field_type]. intros H. injection H as <-.
+  split; [rewrite number_from_length, map_length; reflexivity|].
+  intros j num ty Hn. apply number_from_nth in Hn. cbn [fst snd] in Hn. destruct Hn as [H1 H2].
+  split; [lia|].
+  rewrite nth_error_map in H2. destruct (nth_error fs j) as [[o t]|]; [|discriminate].
+  cbn in H2. injection H2 as <-. eauto.
+Qed.
+
+Theorem numbers_match_choice alts m :
+  schema_of (TChoice alts) = Some m ->
+  exists al, m = [(1, POneofT al)] /\ length al = length alts /\
+  forall j num ty, nth_error al j = Some (num, ty) ->
+    num = N.of_nat j + 1 /\ exists t, nth_error alts j = Some t /\ ty = field_type t.
+Proof.
+  unfold schema_of. cbn [field_type]. intros H. injection H as <-.
+  eexists. split; [reflexivity|]. split; [rewrite number_from_length, map_length; reflexivity|].
+  intros j num ty Hn. apply number_from_nth in Hn. cbn [fst snd] in Hn. destruct Hn as [H1 H2].
+  split; [lia|].
+  rewrite nth_error_map in H2. destruct (nth_error alts j) as [t|]; [|discriminate].
+  cbn in H2. injection H2 as <-. eauto.
+Qed.
+
+(** * the writer's bytes decode under the schema: bounded-exhaustive on the flat type *)
+Definition flat_schema : pmsg := match schema_of flat_ty with Some m => m | None => [] end.
+
+Fixpoint pbval_eqb (a b : pbval) {struct a} : bool :=
+  match a, b with
+  | BNum x, BNum y => (x =? y)%Z
+  | BBytes x, BBytes y => list_n_eqb x y
+  | BMsg None, BMsg None => true
+  | BMsg (Some xs), BMsg (Some ys) | BRep xs, BRep ys =>
+      (fix all2 (xs ys : list pbval) {struct xs} : bool :=
+         match xs, ys with
+         | [], [] => true
+         | x :: xs', y :: ys' => pbval_eqb x y && all2 xs' ys'
+         | _, _ => false
+         end) xs ys
+  | BOneof None, BOneof None => true
+  | BOneof (Some (n, x)), BOneof (Some (k, y)) => (n =? k) && pbval_eqb x y
+  | _, _ => false
+  end.
+
+Definition decode_ok (m : mode) (v : pval) : bool :=
+  match pwrite_vec m flat_ty v, pb_of_val flat_ty v with
+  | Ok bs, Some want =>
+      match pb_decode flat_schema bs with
+      | Some got => pbval_eqb (BMsg (Some got)) (BMsg (Some want))
+      | None => false
+      end
+  | _, _ => false
+  end.
+
+Lemma flat_decode_dev : forallb (decode_ok dev_mode) flat_vals = true.
+Proof. vm_compute. reflexivity. Qed.
+Lemma flat_decode_release : forallb (decode_ok release_mode) flat_vals = true.
+Proof. vm_compute. reflexivity. Qed.
+
+(* the expected field values, explicitly *)
+Definition flat_expected (b : bool) (x : N) (oy : option Z) : list pbval :=
+  [BNum (if b then 1 else 0); BNum (Z.of_N x); BNum (match oy with Some y => y | None => 0 end)].
+
+Lemma pbval_eqb_flat b x oy got :
+  pbval_eqb (BMsg (Some got)) (BMsg (Some (flat_expected b x oy))) = true -> got = flat_expected b x oy.
+Proof.
+  unfold flat_expected. intros H. cbn in H.
+  destruct got as [|g1 got]; [discriminate H|].
+  apply andb_true_iff in H. destruct H as [H1 H].
+  destruct got as [|g2 got]; [discriminate H|].
+  apply andb_true_iff in H. destruct H as [H2 H].
+  destruct got as [|g3 got]; [discriminate H|].
+  apply andb_true_iff in H. destruct H as [H3 H].
+  destruct got as [|g4 got]; [|discriminate H].
+  assert (NUM : forall g z, pbval_eqb g (BNum z) = true -> g = BNum z).
+  { intros g z E. destruct g as [z'|l|o|l|o]; cbn in E.
+    - apply Z.eqb_eq in E. subst. reflexivity.
+    - discriminate E.
+    - destruct o; discriminate E.
+    - discriminate E.
+    - destruct o as [[n w]|]; discriminate E. }
+  apply NUM in H1, H2, H3. subst. reflexivity.
+Qed.
+Theorem decodes_flat (m : mode) b x oy :
+  (m = dev_mode \/ m = release_mode) ->
+  x < 256 -> (forall y, oy = Some y -> (-128 <= y < 128)%Z) ->
+  let v := VSeq [VBool b; VInt (Z.of_N x); VOpt (option_map VInt oy)] in
+  exists bs, pwrite_vec m flat_ty v = Ok bs /\
+             pb_decode flat_schema bs = Some (flat_expected b x oy) /\
+             pb_of_val flat_ty v = Some (flat_expected b x oy).
+Proof.
+  intros Hm Hx Hy v.
+  pose proof (flat_vals_complete b x oy Hx Hy) as Hin. fold v in Hin.
+  assert (R : decode_ok m v = true).
+  { destruct Hm as [-> | ->].
+    - pose proof flat_decode_dev as S. rewrite forallb_forall in S. apply S, Hin.
+    - pose proof flat_decode_release as S. rewrite forallb_forall in S. apply S, Hin. }
+  unfold decode_ok in R.
+  assert (W : pb_of_val flat_ty v = Some (flat_expected b x oy)) by (destruct oy; reflexivity).
+  rewrite W in R. revert R.
+  destruct (pwrite_vec m flat_ty v) as [bs| |] eqn:Ew; try discriminate.
+  destruct (pb_decode flat_schema bs) as [got|] eqn:Ed; try discriminate.
+  intros R. apply pbval_eqb_flat in R. subst got. exists bs. repeat split; auto.
+Qed.
+
+(** * validity of the emitted schema, on representative types (the message types of the harness zoo) *)
+Definition rq (t : pty) := (false, t).
+Definition op (t : pty) := (true, t).
+Definition s_inner := TSeq [rq (TInt KU16); op TStr].
+Definition s_ch2 := TChoice [TInt KU8; TBytes].
+Definition s_ch := TChoice [TInt KI16; TBool; TStr; s_inner; s_ch2; TEnum 3].
+Definition good_types : list pty :=
+  [ TSeq [rq (TInt KU8); rq (TInt KI8); rq (TInt KU16); rq (TInt KI16); rq (TInt KU32); rq (TInt KI32);
+          rq (TInt KU64); rq (TInt KI64); rq (TInt KU64)];
+    s_inner;
+    TSeq [rq TBool; rq TStr; rq TBytes; rq TBits; rq (TEnum 3); rq TStr];
+    TSeq [op (TInt KU8); op TStr; op TBool; op TBytes; op s_inner; rq (TInt KI8); op (TEnum 3); op (TInt KI64)];
+    TSeq [rq (TSeqOf (TInt KI32)); rq (TSeqOf TStr); rq (TSeqOf s_inner); op (TSeqOf (TInt KU8)); rq TBool;
+          rq (TSeqOf (TInt KU16))];
+    s_ch2; s_ch;
+    TSeq [rq TBool; rq s_ch; rq (TInt KU8); op s_ch2];
+    TSeq [rq (TSeqOf s_ch2); rq (TSeqOf (TEnum 3)); rq (TSeqOf TBool); rq (TSeqOf TBytes)];
+    TSeq [rq (TSeq [rq (TInt KU16)]); op (TSeq [rq (TInt KU16)]); rq (TSeq [rq (TSeqOf TStr)])];
+    TSeq [rq (TSeq [op (TSeq [op (TInt KU8)]); rq TBool]); rq TStr];
+    TSeq [rq (TInt KU8); rq TNull; rq (TInt KU8)];
+    TChoice [TNull; TInt KU8];
+    TSeq [rq TBits] ].
+
+Definition schema_valid (t : pty) : bool :=
+  match schema_of t with Some m => valid_proto3 m | None => false end.
+
+Theorem schema_valid_good : forall t, In t good_types -> schema_valid t = true.
+Proof.
+  assert (H : forallb schema_valid good_types = true) by (vm_compute; reflexivity).
+  intros t Ht. rewrite forallb_forall in H. apply H, Ht.
+Qed.
